@@ -162,10 +162,8 @@ func (br *BodyBuffer) Reset() error {
 	if environment.HasAccessToFS && br.writer != nil {
 		w := br.writer
 		br.writer = nil
-		if err := w.Close(); err != nil {
-			return err
-		}
-		return os.Remove(w.Name())
+		// The temporary file has to be removed even if closing it fails.
+		return errors.Join(w.Close(), os.Remove(w.Name()))
 	}
 
 	return nil
